@@ -1,7 +1,9 @@
 //! dtr-verif: model-checking harness for olofos/digital_test_runner (see /verif/DESIGN.md).
 mod compare;
 mod driver;
+mod digxml;
 mod engine;
+mod layout;
 mod model;
 mod props;
 mod refgrammar;
